@@ -1029,6 +1029,7 @@ class Simulation:
                         )
 
                 # Compute back-propagating electric fields.
+                self._ensure_efields()
                 self._bcompute()
 
                 # Pre-allocate the gradient on the mesh.
@@ -1191,6 +1192,17 @@ class Simulation:
 
         return self._misfit
 
+    def _ensure_efields(self):
+        """Compute efields if they are missing although results exist.
+
+        This is the case after `clean('keepresults')`, or if the simulation
+        was stored with `what='results'`.
+        """
+        if not self.layered and any(
+                self._dict_efield[src][freq] is None
+                for src, freq in self._srcfreq):
+            self.compute()
+
     def _bcompute(self):
         """Compute bfields asynchronously for all sources and frequencies."""
         from emg3d import _multiprocessing as _mp
@@ -1309,6 +1321,7 @@ class Simulation:
 
         # Ensure misfit has been computed (and therefore the electric fields).
         _ = self.misfit
+        self._ensure_efields()
 
         # Apply derivative-chain of property-map (copy to not overwrite).
         if vector.ndim == 3:
